@@ -164,6 +164,9 @@ Section Proofs.
       destruct (Nat.eqb_spec m1 m2); [subst|discriminate]. injection H as <-.
       rewrite dotE_add, (IHJ1 m2 y d eq_refl), (IHJ2 m2 y d eq_refl).
       unfold Model.dotn. rewrite <- sumn_add. apply sumn_ext; intros; ring.
+    - rewrite <- (IHJ mm y _ H). unfold Model.dotE. apply sumn_ext; intros k.
+      destruct (cs k); [|reflexivity].
+      unfold Model.dotn. apply sumn_ext; intros; ring.
   Qed.
 
   Lemma lin_shape K dims om e r : forall m, eshape A P K dims e = Some m ->
@@ -264,14 +267,16 @@ Section Proofs.
             - destruct (k0 =? k); [apply H | reflexivity].
             - reflexivity.
             - apply IHJ. intros j. destruct a; simpl; now rewrite ?H.
-            - unfold eadd. now rewrite (IHJ1 y y' H), (IHJ2 y y' H). }
+            - unfold eadd. now rewrite (IHJ1 y y' H), (IHJ2 y y' H).
+            - destruct (cs k0); [reflexivity | now apply IHJ]. }
           apply X. intros j. now rewrite Hj.
         + assert (X : forall y y' : vec, (forall j, y j = y' j) -> forall k i, adj J y k i = adj J y' k i).
           { clear. induction J; simpl; intros y y' H k0 i0.
             - destruct (k0 =? k); [apply H | reflexivity].
             - reflexivity.
             - apply IHJ. intros j. destruct a; simpl; now rewrite ?H.
-            - unfold eadd. now rewrite (IHJ1 y y' H), (IHJ2 y y' H). }
+            - unfold eadd. now rewrite (IHJ1 y y' H), (IHJ2 y y' H).
+            - destruct (cs k0); [reflexivity | now apply IHJ]. }
           apply X. intros j. now rewrite Hj.
       - apply andb_prop in Hs as [Hc Hs]. destruct (IHh Hs) as [M [HM HF]].
         destruct (linE om true h r) as [[v J] m]; simpl in *. subst m. rewrite Hc. simpl.
